@@ -14,6 +14,7 @@ import (
 	"sort"
 	"sync"
 	"sync/atomic"
+	"time"
 )
 
 // ---------------------------------------------------------------- PRNG
@@ -200,6 +201,10 @@ type World struct {
 	salt atomic.Int64
 	step atomic.Int64
 
+	Park  bool // lock acquisitions may be descheduled on the virtual clock (LockYield)
+	parks atomic.Int64
+	parkedNow atomic.Int64
+
 	logMu    sync.Mutex
 	h        hash.Hash
 	lines    []string
@@ -241,10 +246,31 @@ func LockYield() {
 		h = (h ^ uint64(pcs[i])) * 0x100000001b3
 	}
 	r := rng{s: h}
-	if r.intn(4) == 0 {
+	k4 := r.intn(4)
+	if k4 == 0 {
 		runtime.Gosched()
+		return
+	}
+	// park mode (engine B-lite, DESIGN.md 7.2): at another eighth of the salted acquisitions the goroutine is
+	// DESCHEDULED - durably blocked on the virtual clock - until the scheduler next moves time by at least the
+	// drawn duration. Everything the following stimuli make runnable overtakes it right in front of its critical
+	// section, as a thread the operating system took off the processor would be. Pure function of salt and site.
+	if w.Park && k4 == 1 && r.intn(2) == 0 {
+		w.parks.Add(1)
+		w.parkedNow.Add(1)
+		time.Sleep(parkDur[r.intn(len(parkDur))])
+		w.parkedNow.Add(-1)
 	}
 }
+
+// ParkedNow reports how many goroutines are descheduled at a lock acquisition right now. A harness that takes
+// "nothing is pending" for "the tool has nothing more to do" must also ask this (or move the clock first).
+func (w *World) ParkedNow() int { return int(w.parkedNow.Load()) }
+
+var parkDur = []time.Duration{time.Nanosecond, time.Nanosecond, 3 * time.Microsecond, 2 * time.Millisecond}
+
+// Parks reports how often a lock acquisition was descheduled in this run.
+func (w *World) Parks() int { return int(w.parks.Load()) }
 
 var lockYieldOff = os.Getenv("SIM_LOCK_YIELD") == "0"
 
